@@ -314,6 +314,11 @@ def jobs_for(tier, seed):
                 gaps.append(rng.choice(ks))
             gaps.append(())
             jobs.append((list(seq), gaps, 1))
+    # longer comment bodies (3..4 free characters) between a few representative token pairs
+    for t1, t2 in [('a', 'b'), ('1', '2'), ('=', '='), ('a', '+'), (')', '('), ('"s"', 'a')]:
+        for g in [('b',), ('l',), ('w', 'b'), ('b', 'w')]:
+            for bl in ((3,) if tier == 'quick' else (3, 4)):
+                jobs.append(([t1, t2], [(), g, ()], bl))
     # an unterminated block comment must be an error
     for toks in ([], ['a'], ['1', '+'], ['"s"'], ['(', 'a', ')']):
         for n in range(0, 3 if tier == 'quick' else 4):
@@ -347,7 +352,7 @@ def main():
                     assumptions=['char::is_whitespace is modelled by the Unicode White_Space ranges (validated exhaustively in setup)',
                                  'equal token vectors imply equal trees (the tree builder is a function of the token vector; not re-executed here)',
                                  'a gap is left empty only next to ( ) , ; (conservative reading of "where fusion would occur")',
-                                 'comment bodies up to 2 characters; gaps up to 2 items'],
+                                 'comment bodies up to 2 characters everywhere, 3 (thorough 4) between representative token pairs; gaps up to 2 items'],
                     bounds=dict(alphabet=ALPHABET, max_gap_items=2, renderings=len(jobs), solver_timeout_ms=timeout_ms))
 
 
